@@ -455,9 +455,10 @@ fn c04(quick: bool) -> Vec<Harness> {
         }
     }
     let d = |q: usize, t: usize| if quick { q } else { t };
-    for sq in [1u32, 2, 4] {
+    // (3: a size the kernel rounds up; a10 must work with what was granted.)
+    for sq in [1u32, 2, 4, 3] {
         for &c0 in WRAP_C0 {
-            if quick && sq == 4 && !(c0 == 0 || c0 == 0xffff_fffe) {
+            if quick && sq >= 3 && !(c0 == 0 || c0 == 0xffff_fffe) {
                 continue;
             }
             let mut cfg = Cfg::base("C04");
